@@ -30,7 +30,7 @@ pub fn run(args: &Args) -> i32 {
         args,
         "case = fresh zeroed Store; GT state initialised through the real GtState::init (hook) with 0..=15 strictly increasing rank thresholds; discount table set through the real set_order_fee_discount_factors with factors in [0,100%] (boundary-biased: 0,1,100%-1,100%, log-uniform near both ends); referral factor written through Store::get_factor_mut (mostly <=100%, sometimes >100%); then every rank 0..=17 and a few up to 255 x {unreferred, referred}. Non-trivial = referred query with rank and referral factors both non-zero (combination formula exercised); distinct = hash(rank, max_rank, bit lengths of both factors, whether the product has a fractional part).",
     );
-    let cases = args.scale(2_500, 120_000);
+    let cases = crate::util::scaled(args, 40_000, 600_000);
     let shards = 64u64;
     crate::util::set_clock(1_700_000_000, 1);
     vcommon::monitor::run_shards(&mut mon, args.threads, shards, |shard, m| {
@@ -218,14 +218,14 @@ pub fn run(args: &Args) -> i32 {
             m.count("stores");
         }
     });
-    mon.require("stores", 1000);
-    mon.require("referred_checked", 10_000);
-    mon.require("referred_with_fractional_product", 1_000);
-    mon.require("unreferred_equals_table", 10_000);
-    mon.require("rank_above_max_rejected", 10_000);
-    mon.require("sdk_equal_value", 10_000);
-    mon.require("setter_rejected_factor_over_100pct", 100);
-    mon.require("boundary_100pct_factor", 100);
+    crate::util::req(args, &mut mon, "stores", 1000);
+    crate::util::req(args, &mut mon, "referred_checked", 10_000);
+    crate::util::req(args, &mut mon, "referred_with_fractional_product", 1_000);
+    crate::util::req(args, &mut mon, "unreferred_equals_table", 10_000);
+    crate::util::req(args, &mut mon, "rank_above_max_rejected", 10_000);
+    crate::util::req(args, &mut mon, "sdk_equal_value", 10_000);
+    crate::util::req(args, &mut mon, "setter_rejected_factor_over_100pct", 100);
+    crate::util::req(args, &mut mon, "boundary_100pct_factor", 100);
     mon.assume("'up to rounding' is bounded explicitly: |program - exact| < 1 unit of the 20-decimal factor (the code's floor of rank*(1-referral) is additionally recorded as observed_rounding_floor)");
     mon.assume("referral discounts above 100% are outside the property's quantifier; for them only 'no value above 100%' is checked");
     mon.finish()
